@@ -1,5 +1,6 @@
 import itertools
 from ...config import Configuration, ConfigParser
+from ...config._config_parser import _TableFormSection
 
 import sys
 
@@ -27,6 +28,14 @@ def _list_eam_dens(cp):
 
 def _list_eam_embed(cp):
   return _list_section(cp, "EAM-Embed")
+
+def _list_table_forms(cp):
+  # [Table-Form:NAME] sections are neither orphans nor single named sections.
+  outlist = []
+  for s in cp.raw_config_parser.sections():
+    if _TableFormSection.is_relevant_section(s):
+      outlist.extend(_list_section(cp, s))
+  return outlist
 
 def _parse_raw(cp, orphan_sections):
   outlist = []
@@ -58,6 +67,9 @@ def _list_items(cp):
   if ("eam_density" in parsed_sections) or ("eam_density_fs" in parsed_sections):
     eam_dens_items = _list_eam_dens(cp)
     items.extend(eam_dens_items)
+
+  table_form_items = _list_table_forms(cp)
+  items.extend(table_form_items)
 
   orphan_sections = cp.orphan_sections
   raw_items = _parse_raw(cp, orphan_sections)
